@@ -46,7 +46,7 @@ Write(b) ==
   IN [coreIndex |-> [proofRef |-> Len(R) + Len(D) > 0, provRef |-> prov,
                      create |-> Entries(C), recover |-> Entries(R), deactivate |-> Entries(D)],
       coreProof |-> IF Len(R) + Len(D) > 0 THEN [recover |-> IdsSeq(R), deactivate |-> IdsSeq(D)] ELSE None,
-      provIndex |-> IF prov THEN [proofRef |-> Len(U) > 0, chunkRef |-> TRUE, update |-> Entries(U)] ELSE None,
+      provIndex |-> IF prov THEN [proofRef |-> Len(U) > 0, chunkRef |-> TRUE, extraChunk |-> FALSE, update |-> Entries(U)] ELSE None,
       provProof |-> IF prov /\ Len(U) > 0 THEN [update |-> IdsSeq(U)] ELSE None,
       chunk     |-> IF prov THEN [deltas |-> IdsSeq(C) \o IdsSeq(R) \o IdsSeq(U)] ELSE None,
       count     |-> Len(inc)]
@@ -73,7 +73,8 @@ Read(f) ==
                                      proof |-> f.coreProof.deactivate[i], delta |-> 0]]
     IN
     IF ~ci.provRef
-    THEN IF Len(deacts) # f.count THEN Err ELSE Ok(deacts)
+    THEN IF nC + nR > 0 THEN Err          \* creates / recovers need a delta: no provisional index, no chunk file (a missing chunk reference)
+         ELSE IF Len(deacts) # f.count THEN Err ELSE Ok(deacts)
     ELSE
       LET pi == f.provIndex
           nU == Len(pi.update)
@@ -81,6 +82,7 @@ Read(f) ==
       IF (nU > 0 /\ ~pi.proofRef) \/ (nU = 0 /\ pi.proofRef) THEN Err
       ELSE IF pi.proofRef /\ f.provProof = None THEN Err
       ELSE IF ~pi.chunkRef \/ f.chunk = None THEN Err
+      ELSE IF pi.extraChunk THEN Err                                       \* a superfluous chunk reference
       ELSE IF pi.proofRef /\ Len(f.provProof.update) # nU THEN Err
       ELSE IF nC + nR + nU # Len(f.chunk.deltas) THEN Err
       ELSE IF HasDup(SfxSeq(ci.create) \o SfxSeq(ci.recover) \o SfxSeq(ci.deactivate) \o SfxSeq(pi.update)) THEN Err
@@ -137,6 +139,9 @@ Mutations(f) ==
   \cup {[k |-> "clearRef", l |-> r, i |-> 0, to |-> 0] : r \in {"coreProof", "provIndex", "provProof", "chunk"}}
   \cup {[k |-> "addRef", l |-> r, i |-> 0, to |-> 0] : r \in {"coreProof", "provProof"}}
   \cup {[k |-> "count", l |-> "", i |-> d, to |-> 0] : d \in {-1, 1}}
+  \* the provisional index reference removed AND the anchor count set to the number of deactivates (so that only the
+  \* missing reference can be the reason for rejecting); a second chunk reference in the provisional index
+  \cup {[k |-> "dropProvisional", l |-> "", i |-> 0, to |-> 0], [k |-> "addChunkRef", l |-> "", i |-> 0, to |-> 0]}
 
 Applicable(f, m) ==
   CASE m.k \in {"dropIdx", "dupIdx"} -> m.i <= Len(IdxGet(f, m.l))
@@ -150,6 +155,8 @@ Applicable(f, m) ==
     [] m.k = "addRef" -> (CASE m.l = "coreProof" -> ~f.coreIndex.proofRef /\ f.provIndex # None   \* point it at another existing file
                              [] m.l = "provProof" -> f.provIndex # None /\ ~f.provIndex.proofRef)
     [] m.k = "count" -> f.count + m.i >= 0
+    [] m.k = "dropProvisional" -> f.coreIndex.provRef /\ Len(f.coreIndex.deactivate) >= 1
+    [] m.k = "addChunkRef" -> f.provIndex # None /\ f.provIndex.chunkRef /\ ~f.provIndex.extraChunk
 
 Apply(f, m) ==
   CASE m.k = "dropIdx"  -> IdxSet(f, m.l, DelAt(IdxGet(f, m.l), m.i))
@@ -165,6 +172,8 @@ Apply(f, m) ==
     [] m.k = "addRef" -> (CASE m.l = "coreProof" -> [f EXCEPT !.coreIndex.proofRef = TRUE, !.coreProof = [recover |-> <<>>, deactivate |-> <<>>]]
                              [] m.l = "provProof" -> [f EXCEPT !.provIndex.proofRef = TRUE, !.provProof = [update |-> <<>>]])
     [] m.k = "count" -> [f EXCEPT !.count = @ + m.i]
+    [] m.k = "dropProvisional" -> [f EXCEPT !.coreIndex.provRef = FALSE, !.count = Len(f.coreIndex.deactivate)]
+    [] m.k = "addChunkRef" -> [f EXCEPT !.provIndex.extraChunk = TRUE]
 
 Mutate == /\ Len(batch) >= 1 /\ Len(muts) < MaxMut /\ opaque = "none"
           /\ \E m \in Mutations(files) : Applicable(files, m) /\ files' = Apply(files, m) /\ muts' = Append(muts, m)
@@ -178,7 +187,7 @@ OpaqueClasses(f) == {"oversize:" \o x : x \in FilesPresent(f)} \cup {"bomb:" \o 
                     \* the same limits when the content is served by an alternate source after the primary read failed
                     \cup {"oversizeAlt:" \o x : x \in FilesPresent(f)} \cup {"bombAlt:" \o x : x \in FilesPresent(f)}
                     \cup {"null:" \o x : x \in FilesPresent(f)} \cup {"typeconf:" \o x : x \in FilesPresent(f)}
-                    \cup {"longuri:" \o x : x \in FilesPresent(f) \ {"coreIndex"}}
+                    \cup {"longuri:" \o x : x \in FilesPresent(f)}     \* coreIndex: the URI inside the anchor string
                     \cup {"anchorGarbage"}
 Opaque == /\ OpaqueOn /\ Len(batch) >= 1 /\ muts = <<>> /\ opaque = "none" /\ files.count >= 1
           /\ \E c \in OpaqueClasses(files) : opaque' = c
